@@ -211,7 +211,7 @@ def tick_of(meta):
 def monitor(ops, outs):
     """Evaluate the clauses of C17 on the observations `outs` of transcript `ops`.
     Returns list of (clause, detail, index) failures and a dict of evaluation counts."""
-    fails, n = [], {"merge": 0, "merge_clean": 0, "idempotent": 0, "restore": 0, "import": 0, "sync": 0, "sync_snapshots": 0}
+    fails, n = [], {"merge": 0, "merge_clean": 0, "idempotent": 0, "restore": 0, "import": 0, "sync": 0, "sync_snapshots": 0, "bare_rows": 0}
     snapf = {}     # (installation, dictionary) -> (file holding a copy of its snapshot in the sync directory, op index)
     for j, op in enumerate(ops[:len(outs)]):
         t = op.split(" ")
@@ -282,6 +282,29 @@ def monitor(ops, outs):
                     elif after["meta"].get(b"/tick") != before["meta"].get(b"/tick") and before["data"] is not None \
                             and parse_dump(outs[j - 1]) is not None:
                         fails.append(("tick-max", "tick changed by merging an empty snapshot", j))
+            # rows of the snapshot that carry a key but no statistics column (a word added by hand, or an entry whose stored
+            # value was empty): each counts as 0 commits whatever stands in the rows around it — the entry is there afterwards
+            # with the magnitude the dictionary already had
+            if kc is not None and not any(writes_file(o, f) for o in ops[kc:j]) and all(v[2] for v in before["data"].values()):
+                rows = parse_cat(outs[kc]) or []
+                if rows and rows[0] == [("x", b"# Rime user dictionary")]:
+                    metab = {r[0][1][2:]: r[1][1] for r in rows[1:] if len(r) == 2 and r[0][0] == "x" and r[1][0] == "x" and r[0][1].startswith(b"#@")}
+                    keys = [r[0][1] + b"\t" + r[1][1] for r in rows[1:] if len(r) >= 2 and r[0][0] == "x" and r[1][0] == "x"
+                            and not r[0][1].startswith(b"#")]
+                    if db_name_of(metab) == nme:
+                        for r in rows[1:]:
+                            if len(r) != 2 or r[0][0] != "x" or r[1][0] != "x" or r[0][1].startswith(b"#"):
+                                continue
+                            key = r[0][1] + b"\t" + r[1][1]
+                            if not wf_key(key) or keys.count(key) != 1:
+                                continue
+                            n["bare_rows"] = n.get("bare_rows", 0) + 1
+                            co = before["data"].get(key, (0,))[0]
+                            if key not in after["data"]:
+                                fails.append(("keys-kept", "entry %r (a snapshot row without statistics) is missing after the merge" % key, j))
+                            elif co != INT_MIN and abs(after["data"][key][0]) != abs(co):
+                                fails.append(("abs-max", "entry %r: ours %d, theirs a row without statistics (0 commits), merged %d" %
+                                              (key, co, after["data"][key][0]), j))
             # idempotence: merge F I ; dump ; merge F I ; dump
             if j + 3 < len(outs):
                 t2, t3 = ops[j + 2].split(" "), ops[j + 3].split(" ")
@@ -835,7 +858,7 @@ def run(c):
     t_run = time.time() - t0
     n_ops = sum(len(r[0]) for r in results)
     stats = {"dee_compared": 0, "dee_inexact": 0}
-    counts = {"merge": 0, "merge_clean": 0, "idempotent": 0, "restore": 0, "import": 0, "sync": 0, "sync_snapshots": 0}
+    counts = {"merge": 0, "merge_clean": 0, "idempotent": 0, "restore": 0, "import": 0, "sync": 0, "sync_snapshots": 0, "bare_rows": 0}
     crashes, recs = [], []
     k_fail, o_fail, distinct, kinds = [], [], set(), {}
     for sops, spans, impl, model, rc, raw in results:
